@@ -532,4 +532,14 @@ Proof.
   unfold init_world. eapply RL_trans; [apply RL_rm_call, rlab_initialize, rlab_clean|]. apply RL_fold. intros. apply RL_init_dev.
 Qed.
 
+(** a device constructed between two events *)
+Lemma RL_late_create fuel w d ups : RL w (late_create fuel nw w d ups).
+Proof.
+  unfold late_create. match goal with |- RL _ (if ?c then _ else _) => destruct c end; [Lt|].
+  set (w0 := w <| f_next_id := f_next_id w + 1 |>).
+  apply (RL_trans w w0); [apply RL_same; reflexivity|].
+  apply (RL_trans w0 (updd w0 d t_live)); [apply RL_dev; intro y; split; reflexivity|].
+  eapply RL_trans; [apply RL_init_dev|apply RL_rewire].
+Qed.
+
 End Log.
